@@ -611,7 +611,7 @@ func init() {
 			cases = append(cases, pc)
 		}
 		rep.Rule = "programs from the clean pool with labels: (a) systematic `ORG o / MOV r,after / K / after: / DW after,first,$ / MOV r,after / MOV r,$ / Jcc after / ...` for seeded statement kinds K of every pool family, both modes, origins {none,0,0x7c00,0xc200}; " +
-			"(b) random programs of 5-40 statements (instructions of every size class, DB/DW/DD, RESB, ALIGNB, RESB addr-$) with labels at random positions referenced before and after definition; " +
+			"(b) random programs of 5-40 statements (instructions of every size class, DB/DW/DD, RESB, ALIGNB, RESB addr-$) with labels at random positions referenced before and after definition, every fourth with two labels whose names differ only in `.`/`$` against `_`; " +
 			"oracle: the walker recovers every statement's true offset from the output and every embedded label/$ value and branch target must equal origin+offset; non-trivial = accepted and walked; distinct = (generator, mode, origin, statement kind / size bucket) cells"
 		outs := RunCases(env, cases)
 		xcheckProg(env, rep, outs)
